@@ -47,8 +47,8 @@ class Outcome(object):
 _OBS = []
 
 
-class _Timeout(Exception):
-    pass
+class _Timeout(BaseException):
+    """raised by the per-obligation alarm; a BaseException so that no `except Exception` inside a back end can swallow it"""
 
 
 def _alarm(*_a):
@@ -58,8 +58,8 @@ def _alarm(*_a):
 HARD_LIMIT_S = int(os.environ.get('VERIF_OB_LIMIT', '300'))
 
 
-class NativeTimeout(Exception):
-    pass
+class NativeTimeout(BaseException):
+    """raised by time_limit; a BaseException so that native drivers with broad handlers cannot swallow it"""
 
 
 class time_limit(object):
